@@ -1087,6 +1087,23 @@ def r_aliasret(repo, tier):
                     out.inst("%s::%s" % (f.key, norm(r)), {"class": c.name, "method": mname, "return": norm(r), "returns_self": bad})
                     if bad:
                         out.report(EXPR, f.dqual, norm(r), r.lineno, "%s.%s returns the container itself; %s is updated in place by its __setitem__ (the mapper keeps one per register), so the caller's object and the stored one become the same" % (c.name, mname, c.name))
+    # mapper.__getitem__ : what it hands out for a register is detached from the entry the map owns (a slice of a comp is a
+    # copy by the clause above; simplify() works in place and returns the entry itself)
+    g = repo.func("amoco/cas/mapper.py", "mapper.__getitem__")
+    owned = set()
+    for x in _walk_no_nested(g.node):
+        if isinstance(x, ast.Assign) and isinstance(x.targets[0], ast.Name) and any(isinstance(k, ast.Call) and isinstance(k.func, ast.Attribute) and k.func.attr in ("R", "M") and norm(k.func.value) == "self" for k in ast.walk(x.value)):
+            owned.add(x.targets[0].id)
+    if not owned:
+        raise AnalysisError("R-ALIASRET: mapper.__getitem__ no longer reads its entry through self.R / self.M (anchor changed)")
+    for r in _walk_no_nested(g.node):
+        if isinstance(r, ast.Return) and r.value is not None and ({k.id for k in ast.walk(r.value) if isinstance(k, ast.Name)} & owned):
+            n += 1
+            v = r.value
+            detached = (isinstance(v, ast.Subscript) and isinstance(v.slice, ast.Slice)) or (isinstance(v, ast.Call) and isinstance(v.func, ast.Attribute) and v.func.attr in ("copy", "eval"))
+            out.inst("%s::%s" % (g.key, norm(r)), {"class": "mapper", "method": "__getitem__", "return": norm(r), "detached": detached})
+            if not detached:
+                out.report("amoco/cas/mapper.py", g.dqual, norm(r), r.lineno, "mapper.__getitem__ returns `%s`: the map's own entry (or the result of an in-place method on it) instead of a slice/copy; mapper.__setitem__ updates register entries in place, so a value read earlier changes with later partial writes" % norm(r.value))
     out.stats["returns"] = n
     return out
 
